@@ -94,6 +94,12 @@ CHECKS['C07'] = ('3/C07', 'Self-composition over the real step code: two copies 
                  'core: a real gap step (three gap models) and a real Reactor.axial_step on a loading pattern and on the pattern turned by 60 degrees, '
                  'symbolic states tied by the coordinate-induced permutations.')
 
+CHECKS['C18'] = ('3/C18', 'The real validators of the reader (axial regions, pins, ducts, core section, boundary conditions, power-profile sign) run '
+                 'on the data dictionary of a real DASSH_Input with the numeric leaves symbolic; "accepted => the validity predicate of the property" '
+                 'is an SMT claim on every accepting path and any exception other than the error exit is a violation; counterexamples are confirmed '
+                 'by writing an input file with the solver values and running DASSH_Input -> Reactor -> first planes of the sweep.  Malformed '
+                 'power files are an enumerated auxiliary instance.')
+
 NOT_APPLICABLE = {
     'C16': ('No symbolic dimension for a solver: process schedules/multiprocessing/file output, bitwise IEEE determinism, and '
             'object-identity/type mutation of the input dictionary on `is None`/key-presence branches (DESIGN section 4).'),
